@@ -8,11 +8,13 @@ From GB Require Import Gen.Facts Proofs.FactsChecks.
 Import ListNotations.
 Open Scope Z_scope.
 
-(* V2 always, V1 whenever no asynchronous recalculation is outstanding (i.e. at settled instants) *)
+(* V2 always except while CreatePartitions of a re-provisioning is running (not_creating: the figure is recomputed
+   when it returns; see C06_growth_keeps_the_formula for what holds meanwhile), V1 whenever no asynchronous
+   recalculation is outstanding (i.e. at settled instants) *)
 Theorem C06_capacity_formula : forall c r sh s, sreachable c r sh s ->
-  (sc_gen c = V2 \/ s_recalcs s = 0%nat) -> capacity s = s_reserved s + s_factor s * held s.
+  (sc_gen c = V2 \/ s_recalcs s = 0%nat) -> not_creating s -> capacity s = s_reserved s + s_factor s * held s.
 Proof.
-  intros c r sh s R X. destruct (capinv_reachable c r sh s R) as [_ HC]. unfold capacity. rewrite (HC X). lia.
+  intros c r sh s R X NC. destruct (capinv_reachable c r sh s R) as [_ HC]. unfold capacity. rewrite (HC X NC). lia.
 Qed.
 Print Assumptions C06_capacity_formula.
 
@@ -28,10 +30,31 @@ Proof. exact lease_ret_expiry. Qed.
 Print Assumptions C06_counted_until_expiry.
 
 Theorem C06_upper_bound : forall c r sh s, sreachable c r sh s ->
-  (sc_gen c = V2 \/ s_recalcs s = 0%nat) -> 0 <= s_factor s ->
+  (sc_gen c = V2 \/ s_recalcs s = 0%nat) -> not_creating s -> 0 <= s_factor s ->
   capacity s <= s_reserved s + s_factor s * Z.of_nat (length (s_parts s)).
 Proof. exact capacity_upper. Qed.
 Print Assumptions C06_upper_bound.
+
+(* live growth of the shared capacity (and any resize that drops no counted partition) keeps the formula exact even
+   while CreatePartitions runs; CreatePartitions' return recomputes it in every case; a lease that expires meanwhile
+   is cleared at once (nothing is locked: repair D8) *)
+Theorem C06_growth_keeps_the_formula : forall c s s' o,
+  sstep c s SILoopProvision = Some (s', o) -> (length (s_parts s) <= length (s_parts s'))%nat ->
+  s_capacity s = held s * s_factor s -> s_capacity s' = held s' * s_factor s'.
+Proof. exact growth_keeps_capacity_exact. Qed.
+Print Assumptions C06_growth_keeps_the_formula.
+
+Theorem C06_recomputed_when_provisioning_returns : forall c s s' o,
+  sstep c s SICreateRet = Some (s', o) ->
+  exists n, s_loop s = SCreating n /\ s_loop s' = STop (s_now s) /\ s_parts s' = s_parts s
+    /\ s_capacity s' = held s' * s_factor s' /\ o = [SOEvProvisionDone n; SOEvCapacity (capacity s')].
+Proof. exact create_ret_effect. Qed.
+Print Assumptions C06_recomputed_when_provisioning_returns.
+
+Theorem C06_expiry_not_blocked_by_provisioning : forall c s p n s' o,
+  s_loop s = SCreating n -> sstep c s (SIExpire p) = Some (s', o) -> s_loop s' = SCreating n /\ In (SOEvReleased p) o.
+Proof. exact expiry_during_create. Qed.
+Print Assumptions C06_expiry_not_blocked_by_provisioning.
 
 Theorem C06_max_capacity : forall c s,
   max_capacity c s = match sc_gen c with
@@ -58,7 +81,7 @@ Theorem C06_partition_count_v2 : forall c s s' o,
   /\ (max_partitions < partition_count (s_shared s) (s_factor s) -> In (SOEvError (partition_count (s_shared s) (s_factor s))) o)
   /\ (forall i, (i < length (s_parts s'))%nat -> (i < length (s_parts s))%nat -> nth_error (s_parts s') i = nth_error (s_parts s) i)
   /\ (forall i, (i < length (s_parts s'))%nat -> (length (s_parts s) <= i)%nat -> nth_error (s_parts s') i = Some None)
-  /\ s_capacity s' = held s' * s_factor s'.
+  /\ s_loop s' = SCreating (Z.min (partition_count (s_shared s) (s_factor s)) max_partitions).
 Proof. exact provision_count_v2. Qed.
 Print Assumptions C06_partition_count_v2.
 
@@ -99,6 +122,6 @@ Proof. split; reflexivity. Qed.
 (* non-vacuity: reserved 5, shared 7, factor 3 -> 3 partitions; two grants counted *)
 Example C06_nonvacuous :
   exists s os, srun (mkSCfg V2 3 0 true) (sinit (mkSCfg V2 3 0 true) 5 7)
-     [SAStart true; SILoopProvision; SAGiveMe 12; SILease 1; SILeaseRet (15 * sec); STime 100; SILease 0; SILeaseRet (15 * sec)]
+     [SAStart true; SILoopProvision; SICreateRet; SAGiveMe 12; SILease 1; SILeaseRet (15 * sec); STime 100; SILease 0; SILeaseRet (15 * sec)]
      = Some (s, os) /\ capacity s = 11 /\ length (s_parts s) = 3%nat /\ max_capacity (mkSCfg V2 3 0 true) s = 12.
 Proof. eexists. eexists. vm_compute. repeat split. Qed.
